@@ -405,10 +405,17 @@ structure ReadPost (w : List Nat) (p0 : Int) (t : Stream) (res : ReadRes) : Prop
   nopanic : res ≠ .panic
   opn : isOpen t
 
+/-- which result the slow path produces -/
+def SlowShape (s : Stream) (n : Nat) (res : ReadRes) : Prop :=
+  (s.insize = s.inp.start ∧ res = .eof) ∨
+  (s.insize ≠ s.inp.start ∧ ∃ bytes, res = .data bytes (decide (s.inp.start + (bytes.length : Int) = s.insize)) ∧
+    (0 < bytes.length ↔ 0 < n))
+
 theorem slowBody_post (w : List Nat) (c : Conn) (s : Stream) (spec : Spec) (n : Nat) (h : RI w s spec)
     (hb : s.inbuf = []) (hbo : s.inbufoff = 0) (hp : Pre s) (ho : isOpen s)
     (hcr : Rangeset.contains s.inset s.inp.start = true ∨ s.insize = s.inp.start) :
-    ReadPost w s.inp.start (slowBody c s n).2.1 (slowBody c s n).2.2 := by
+    ReadPost w s.inp.start (slowBody c s n).2.1 (slowBody c s n).2.2 ∧ SlowShape s n (slowBody c s n).2.2 ∧
+      (slowBody c s n).2.1.insize = s.insize ∧ (slowBody c s n).2.1.inset = s.inset := by
   have hpos : pos s = s.inp.start := by unfold pos; rw [hbo]; simp
   have hself : ReadPost w s.inp.start s .eof :=
     ⟨⟨spec, h⟩, hp, by simp [bytesOf, hpos], by intro i hi; simp [bytesOf] at hi, by simp, ho⟩
@@ -418,7 +425,7 @@ theorem slowBody_post (w : List Nat) (c : Conn) (s : Stream) (spec : Spec) (n : 
   unfold slowBody
   rw [if_neg ho1, if_neg ho2]
   by_cases hz : s.insize = s.inp.start
-  · rw [if_pos hz]; exact hself
+  · rw [if_pos hz]; exact ⟨hself, Or.inl ⟨hz, rfl⟩, rfl, rfl⟩
   · rw [if_neg hz]
     have hmem : Mem s.inset s.inp.start := by
       rcases hcr with h1 | h1
@@ -452,8 +459,15 @@ theorem slowBody_post (w : List Nat) (c : Conn) (s : Stream) (spec : Spec) (n : 
       have hs2 : RI w { s with inp := Pipe.discardBefore s.inp (s.inp.start + n') } (specDiscard spec (s.inp.start + n')) :=
         RI_fields hd rfl rfl (by simp [hb]) (by simp [hbo])
       have hbytes : ∀ i : Nat, i < bytes.length → bytes[i]? = wAt w (s.inp.start + i) := fun i hi => e3 i (by omega)
+      have hlenpos : 0 < bytes.length ↔ 0 < n := by
+        rw [e2]; rw [← hn'] at hk ⊢
+        split at hk <;> (split <;> omega)
       by_cases heof : s.inp.start + n' = s.insize
       · rw [if_pos heof]
+        refine ⟨?_, Or.inr ⟨hz, bytes, ?_, hlenpos⟩, rfl, rfl⟩
+        rotate_left
+        · show ReadRes.data bytes true = ReadRes.data bytes (decide (s.inp.start + (bytes.length : Int) = s.insize))
+          rw [e2, hk]; simp [heof]
         refine ⟨⟨_, hs2⟩, ?_, ?_, hbytes, by simp, ?_⟩
         · intro x h1 h2
           have h2' : x < s.inp.start + n' + (s.inbuf.length : Int) := h2
@@ -468,8 +482,19 @@ theorem slowBody_post (w : List Nat) (c : Conn) (s : Stream) (spec : Spec) (n : 
             ReadPost w s.inp.start
               (if t.insize = -1 ∨ t.insize > t.inwin then
                  (if shouldUpdateFlowControl t.inmaxbuf (t.inp.start + t.inbuf.length + t.inmaxbuf - t.inwin) = true
-                  then { t with insendmax := .unsent } else t) else t) (.data bytes false) := by
+                  then { t with insendmax := .unsent } else t) else t) (.data bytes false) ∧
+            SlowShape s n (.data bytes false) ∧
+            (if t.insize = -1 ∨ t.insize > t.inwin then
+                 (if shouldUpdateFlowControl t.inmaxbuf (t.inp.start + t.inbuf.length + t.inmaxbuf - t.inwin) = true
+                  then { t with insendmax := .unsent } else t) else t).insize = t.insize ∧
+            (if t.insize = -1 ∨ t.insize > t.inwin then
+                 (if shouldUpdateFlowControl t.inmaxbuf (t.inp.start + t.inbuf.length + t.inmaxbuf - t.inwin) = true
+                  then { t with insendmax := .unsent } else t) else t).inset = t.inset := by
           intro t spec' ex hri hpre hst hoff hc1 hc2
+          refine ⟨?_, Or.inr ⟨hz, bytes, ?_, hlenpos⟩, by split <;> (try split) <;> rfl, by split <;> (try split) <;> rfl⟩
+          rotate_left
+          · show ReadRes.data bytes false = ReadRes.data bytes (decide (s.inp.start + (bytes.length : Int) = s.insize))
+            rw [e2, hk]; simp [heof]
           have base : ∀ u : Stream, u.inp = t.inp → u.inset = t.inset → u.inbuf = t.inbuf → u.inbufoff = t.inbufoff →
               u.inclosed = t.inclosed → u.inresetcode = t.inresetcode → ReadPost w s.inp.start u (.data bytes false) := by
             intro u a1 a2 a3 a4 a5 a6
@@ -560,7 +585,7 @@ theorem read_post (w : List Nat) (c : Conn) (s : Stream) (spec : Spec) (n : Nat)
         · exact Or.inr h1
         · exact absurd (Or.inr h1) ho
         · exact absurd (Or.inl h1) ho
-      have := slowBody_post w c (prep s) spec1 n h1 b1 b2 b4 ho' hcr
+      have := (slowBody_post w c (prep s) spec1 n h1 b1 b2 b4 ho' hcr).1
       rw [b3] at this
       exact this
 
@@ -590,5 +615,188 @@ theorem feed_post (w : List Nat) (c : Conn) (s : Stream) (spec : Spec) (f : Int 
     exact hp x hx hx2'
   · have hfeed : feed (c, s) f = (c, s) := by unfold feed; simp [h0]
     rw [hfeed]; exact ⟨⟨spec, h⟩, hp, ho, rfl⟩
+
+
+/-! ### final size -/
+
+/-- a recorded final size bounds everything received -/
+def FinInv (s : Stream) : Prop := s.insize = -1 ∨ (0 ≤ s.insize ∧ ∀ x, Mem s.inset x → x < s.insize)
+
+theorem handleData_ok_bounds (c : Conn) (s : Stream) (off : Int) (b : List Nat) (fin : Bool)
+    (h0 : (handleData c s off b fin).2.2 = 0) :
+    checkStreamBounds s.inwin s.insize s.inp.stop (off + b.length) fin = 0 := by
+  unfold handleData at h0
+  simp only [] at h0
+  by_cases h1 : checkStreamBounds s.inwin s.insize s.inp.stop (off + b.length) fin = 0
+  · exact h1
+  · simp [h1] at h0
+
+/-- a delivered frame keeps `FinInv`, and **a recorded final size never changes** -/
+theorem feed_fin (w : List Nat) (c : Conn) (s : Stream) (spec : Spec) (f : Int × List Nat × Bool)
+    (h : RI w s spec) (hfi : FinInv s) (ho : isOpen s) (hf : FrameOf w f.1 f.2.1) :
+    FinInv (feed (c, s) f).2 ∧ (s.insize ≠ -1 → (feed (c, s) f).2.insize = s.insize) := by
+  by_cases h0 : (handleData c s f.1 f.2.1 f.2.2).2.2 = 0
+  · have hfeed : feed (c, s) f = ((handleData c s f.1 f.2.1 f.2.2).1, (handleData c s f.1 f.2.1 f.2.2).2.1) := by
+      unfold feed; simp [h0]
+    rw [hfeed]
+    have hsh := handleData_shape c s f.1 f.2.1 f.2.2 h0 ho
+    simp only [] at hsh
+    obtain ⟨_, e2, _, _, _, _, e7, _⟩ := hsh
+    have hcb := handleData_ok_bounds c s f.1 f.2.1 f.2.2 h0
+    have hlen : (0 : Int) ≤ f.2.1.length := Int.natCast_nonneg _
+    have htr := trimOff_facts s f.1 (f.1 + f.2.1.length) (by omega)
+    have hmem : ∀ x, Mem (handleData c s f.1 f.2.1 f.2.2).2.1.inset x →
+        Mem s.inset x ∨ (f.1 ≤ x ∧ x < f.1 + f.2.1.length) := by
+      intro x hx; rw [e2, mem_add _ _ _ h.wf htr.2.1] at hx
+      rcases hx with hx | hx
+      · exact Or.inl hx
+      · exact Or.inr ⟨by omega, hx.2⟩
+    unfold checkStreamBounds errFlowControl errFinalSize at hcb
+    have hf0 := hf.1
+    show FinInv (handleData c s f.1 f.2.1 f.2.2).2.1 ∧ _
+    unfold FinInv
+    rw [e7]
+    rcases hfi with hfi | hfi
+    · -- no final size so far
+      refine ⟨?_, fun hne => absurd hfi hne⟩
+      by_cases hfin : f.2.2 = true
+      case neg => rw [if_neg hfin]; exact Or.inl hfi
+      case pos =>
+        right
+        rw [if_pos hfin]
+        refine ⟨by omega, fun x hx => ?_⟩
+        rcases hmem x hx with h1 | h1
+        · have := (h.cov x h1).2.1
+          rw [hfin] at hcb
+          split at hcb
+          · simp at hcb
+          · split at hcb
+            · simp at hcb
+            · split at hcb
+              · simp at hcb
+              · split at hcb
+                · simp at hcb
+                · rename_i hlt; simp at hlt; omega
+        · exact h1.2
+    · -- final size known: it stays, and the frame lies below it
+      have hne : s.insize ≠ -1 := by omega
+      have hle : f.1 + (f.2.1.length : Int) ≤ s.insize ∧ (f.2.2 = true → f.1 + (f.2.1.length : Int) = s.insize) := by
+        split at hcb
+        · simp at hcb
+        · split at hcb
+          · simp at hcb
+          · split at hcb
+            · simp at hcb
+            · rename_i h2 h3
+              constructor
+              · have : ¬ (f.1 + (f.2.1.length : Int) > s.insize) := fun hgt => h2 ⟨hne, hgt⟩
+                omega
+              · intro ht
+                apply Classical.byContradiction
+                intro hcontra
+                exact h3 ⟨ht, hne, hcontra⟩
+      have hsame : (if f.2.2 = true then f.1 + (f.2.1.length : Int) else s.insize) = s.insize := by
+        split
+        · rename_i ht; exact hle.2 ht
+        · rfl
+      rw [hsame]
+      refine ⟨Or.inr ⟨hfi.1, fun x hx => ?_⟩, fun _ => rfl⟩
+      rcases hmem x hx with h1 | h1
+      · exact hfi.2 x h1
+      · omega
+  · have hfeed : feed (c, s) f = (c, s) := by unfold feed; simp [h0]
+    rw [hfeed]; exact ⟨hfi, fun _ => rfl⟩
+
+
+/-- `Read` reported io.EOF (alone, or together with the last bytes) -/
+def isEOF (res : ReadRes) : Prop := res = .eof ∨ ∃ b, res = .data b true
+
+/-- **EOF and availability of one `Read`**, on an open stream satisfying the invariants. -/
+theorem read_more (w : List Nat) (c : Conn) (s : Stream) (spec : Spec) (n : Nat) (h : RI w s spec) (hp : Pre s)
+    (ho : isOpen s) (hfi : FinInv s) (hw : s.writeOnly = false) :
+    (isEOF (QuicStream.read c s n).2.2 ↔
+      (s.insize ≠ -1 ∧ ¬ s.inbuf.length > s.inbufoff ∧ pos (QuicStream.read c s n).2.1 = s.insize)) ∧
+    (0 < n → (0 < (bytesOf (QuicStream.read c s n).2.2).length ↔ Mem s.inset (pos s))) ∧
+    (QuicStream.read c s n).2.1.insize = s.insize ∧ (QuicStream.read c s n).2.1.inset = s.inset := by
+  have hpos0 : 0 ≤ pos s := by unfold pos; have := h.st0; omega
+  by_cases hf : s.inbuf.length > s.inbufoff
+  · have hr : QuicStream.read c s n = (c, { s with inbufoff := s.inbufoff + min n (s.inbuf.length - s.inbufoff) },
+        .data ((s.inbuf.drop s.inbufoff).take (min n (s.inbuf.length - s.inbufoff))) false) := by
+      unfold QuicStream.read; simp [hw, hf]
+    rw [hr]
+    refine ⟨⟨?_, fun hx => absurd hf hx.2.1⟩, ?_, rfl, rfl⟩
+    · rintro (hx | ⟨b, hx⟩) <;> simp at hx
+    · intro hn
+      have hm : Mem s.inset (pos s) := h.bufcov _ (by unfold pos; omega) (by unfold pos; omega)
+      simp only [bytesOf, List.length_take, List.length_drop]
+      constructor
+      · exact fun _ => hm
+      · intro _; omega
+  · rw [read_eq_slow c s n hw hf]
+    have hlen : (s.inbuf.length : Int) = s.inbufoff := by have := h.off; omega
+    cases hcan : s.canRead
+    · simp only [Bool.not_false, if_true]
+      unfold Stream.canRead at hcan
+      simp only [Bool.or_eq_false_iff, decide_eq_false_iff_not] at hcan
+      obtain ⟨⟨⟨h1, h2⟩, _⟩, _⟩ := hcan
+      have hne : s.insize ≠ pos s := by unfold pos; rw [← hlen]; exact h2
+      have hnm : ¬ Mem s.inset (pos s) := by
+        intro hm
+        have := (NetVerif.Proofs.C24.contains_iff _ h.wf _).2 hm
+        unfold pos at this; rw [← hlen, h1] at this; exact absurd this (by simp)
+      refine ⟨⟨?_, fun hx => absurd hx.2.2.symm hne⟩, fun _ => ⟨fun hx => by simp [bytesOf] at hx, fun hx => absurd hx hnm⟩, by first | rfl | trivial, by first | rfl | trivial⟩
+      rintro (hx | ⟨b, hx⟩) <;> simp at hx
+    · simp only [Bool.not_true, Bool.false_eq_true, if_false]
+      obtain ⟨spec1, h1, b1, b2, b3, b4, b5, b6, b7, b8, _⟩ := prep_RI w s spec h hp hf
+      have ho' : isOpen (prep s) := by unfold isOpen; rw [b7, b8]; exact ho
+      have hcr : Rangeset.contains (prep s).inset (prep s).inp.start = true ∨ (prep s).insize = (prep s).inp.start := by
+        rw [b5, b6, b3]
+        unfold Stream.canRead at hcan
+        unfold isOpen at ho
+        simp only [Bool.or_eq_true, decide_eq_true_eq] at hcan
+        unfold pos
+        rw [← hlen]
+        rcases hcan with ((h1 | h1) | h1) | h1
+        · exact Or.inl h1
+        · exact Or.inr h1
+        · exact absurd (Or.inr h1) ho
+        · exact absurd (Or.inl h1) ho
+      obtain ⟨hpost, hshape, hk1, hk2⟩ := slowBody_post w c (prep s) spec1 n h1 b1 b2 b4 ho' hcr
+      rw [b3] at hpost
+      have hadv := hpost.adv
+      generalize slowBody c (prep s) n = r at *
+      refine ⟨?_, ?_, by rw [hk1, b6], by rw [hk2, b5]⟩
+      · unfold SlowShape at hshape
+        rw [b6, b3] at hshape
+        rcases hshape with ⟨e1, e2⟩ | ⟨e1, bytes, e2, _⟩
+        · rw [e2] at hadv ⊢
+          simp only [bytesOf, List.length_nil] at hadv
+          exact ⟨fun _ => ⟨by omega, hf, by omega⟩, fun _ => Or.inl rfl⟩
+        · rw [e2] at hadv ⊢
+          simp only [bytesOf] at hadv
+          constructor
+          · rintro (hx | ⟨b, hx⟩)
+            · simp at hx
+            · simp only [ReadRes.data.injEq, decide_eq_true_eq] at hx
+              exact ⟨by omega, hf, by omega⟩
+          · rintro ⟨_, _, hx⟩
+            exact Or.inr ⟨bytes, by simp; omega⟩
+      · intro hn
+        unfold SlowShape at hshape
+        rw [b6, b3] at hshape
+        rcases hshape with ⟨e1, e2⟩ | ⟨e1, bytes, e2, e3⟩
+        · rw [e2]
+          simp only [bytesOf, List.length_nil]
+          refine ⟨fun hx => by omega, fun hm => ?_⟩
+          rcases hfi with hfi | hfi
+          · omega
+          · have := hfi.2 _ hm; omega
+        · rw [e2]
+          simp only [bytesOf]
+          refine ⟨fun _ => ?_, fun _ => e3.2 hn⟩
+          rcases hcr with hc | hc
+          · have := (NetVerif.Proofs.C24.contains_iff _ h1.wf _).1 hc
+            rw [b5, b3] at this; exact this
+          · rw [b6, b3] at hc; exact absurd hc e1
 
 end NetVerif.Proofs.Lemmas.QuicRecv
